@@ -6,7 +6,7 @@
 (* accessor fails; a strict prefix of an encoding a matching accessor      *)
 (* would accept fails with the end-of-input class.                         *)
 (***************************************************************************)
-EXTENDS CborData, SkipProp
+EXTENDS CborData, SkipProp, TLC
 
 VConcat(kind, b) == [k |-> kind, cat |-> b, borrowed |-> TRUE]     \* drained bytes_iter / str_iter: concatenation of the chunks
 \* bytes_iter (mj = 2) / str_iter (mj = 3), drained
@@ -45,7 +45,7 @@ ContIterAcc(mj, buf, p) ==
         {Ok(VCount(IF mj = 4 THEN items ELSE items \div 2), r.e)} \cup (IF ~r.t THEN {Err("*")} ELSE {})     \* (invalid UTF-8 inside: the element may refuse)
 
 AccNames == IntTypes \cup {"char", "bool", "null", "undefined", "simple", "f16", "f32", "f64", "bytes", "str", "bytes_iter", "str_iter",
-                           "array", "map", "tag", "datatype", "array_iter", "map_iter"}
+                           "array", "map", "tag", "datatype", "array_iter", "map_iter", "array_iter_with", "map_iter_with"}
 AccExpect(name, halfOn, buf, p) ==
    CASE name \in IntTypes  -> IntAcc(name, buf, p)
      [] name = "char"      -> CharAcc(buf, p)
@@ -60,8 +60,15 @@ AccExpect(name, halfOn, buf, p) ==
      [] name = "map"       -> LenAcc(5, buf, p)
      [] name = "array_iter" -> ContIterAcc(4, buf, p)
      [] name = "map_iter"  -> ContIterAcc(5, buf, p)
+     \* the same iterators handing a caller's context to every element: the elements counted in the context
+     [] name = "array_iter_with" -> ContIterAcc(4, buf, p)
+     [] name = "map_iter_with"  -> ContIterAcc(5, buf, p)
      [] name = "tag"       -> TagAcc(buf, p)
      [] name = "datatype"  -> DatatypeAcc(buf, p)
+
+(* Decoder::probe(): the accessor runs on a copy of the decoder. Whatever it returns - and it returns what the accessor itself *)
+(* would - the probing decoder stays where it was (`opos`, the position of the original after the probe was dropped).          *)
+ProbeExpect(name, halfOn, buf, p) == { [opos |-> p] @@ x : x \in AccExpect(name, halfOn, buf, p) }
 
 \* ---- cross-checks between the accessor semantics and the data-model decoding (two definitions) ----
 \* whole-item accessors: success means the item ends exactly where the accessor stopped and the values agree
@@ -87,6 +94,6 @@ Compatible(name, mj, info) ==
    CASE name \in IntTypes -> mj \in {0, 1} [] name = "char" -> mj = 0
      [] name \in {"bool", "null", "undefined", "simple", "f16", "f32", "f64"} -> mj = 7
      [] name \in {"bytes", "bytes_iter"} -> mj = 2 [] name \in {"str", "str_iter"} -> mj = 3
-     [] name \in {"array", "array_iter"} -> mj = 4 [] name \in {"map", "map_iter"} -> mj = 5 [] name = "tag" -> mj = 6 [] name = "datatype" -> TRUE
+     [] name \in {"array", "array_iter", "array_iter_with"} -> mj = 4 [] name \in {"map", "map_iter", "map_iter_with"} -> mj = 5 [] name = "tag" -> mj = 6 [] name = "datatype" -> TRUE
 NoCrossShape(buf) == \A name \in AccNames : (\E x \in AccExpect(name, TRUE, buf, 0) : x.p = "ok") => Compatible(name, ShapeOf(buf), 0)
 =============================================================================
